@@ -1,6 +1,18 @@
 from xdsl.context import Context
 from xdsl.dialects import builtin, linalg
-from xdsl.dialects.arith import AddiOp, ConstantOp, ExtSIOp, MaxSIOp, MinSIOp, MuliOp, ShRSIOp, SubiOp, TruncIOp
+from xdsl.dialects.arith import (
+    AddiOp,
+    CmpiOp,
+    ConstantOp,
+    ExtSIOp,
+    MaxSIOp,
+    MinSIOp,
+    MuliOp,
+    SelectOp,
+    ShRSIOp,
+    SubiOp,
+    TruncIOp,
+)
 from xdsl.passes import ModulePass
 from xdsl.pattern_rewriter import (
     PatternRewriter,
@@ -15,37 +27,57 @@ from snaxc.dialects.kernel import Parsable, RescaleOp
 
 class LowerRescale(RewritePattern):
     """
-    Limited lowering of rescale to linalg,
-    ignoring separate channels and double rounding.
+    Lowering of rescale to linalg, following the golden model
+    (util/gemmx/simd_golden_model.py) step by step. A scalar body has one
+    multiplier and one shift: per-channel rescales are left untouched.
     """
 
     @op_type_rewrite_pattern
     def match_and_rewrite(self, op: RescaleOp, rewriter: PatternRewriter):
         if not isinstance(linalg_op := op.parent_op(), linalg.GenericOp):
             return
+        shifts, mults = set(op.shift.get_values()), set(op.multiplier.get_values())
+        in_type, out_type = op.input.type, op.result.type
+        assert isinstance(in_type, builtin.IntegerType) and isinstance(out_type, builtin.IntegerType)
+        if len(shifts) != 1 or len(mults) != 1 or in_type.bitwidth >= 64:
+            return
 
         # create constant ops:
-        zp_in = ConstantOp.from_int_and_width(op.input_zp.value.data, builtin.IntegerType(32))
+        zp_in = ConstantOp.from_int_and_width(op.input_zp.value.data, builtin.IntegerType(64))
         zp_out = ConstantOp.from_int_and_width(op.output_zp.value.data, builtin.IntegerType(32))
-        shift = ConstantOp.from_int_and_width(int(op.shift.get_values()[0]), builtin.IntegerType(64))
-        mult = ConstantOp.from_int_and_width(int(op.multiplier.get_values()[0]), builtin.IntegerType(64))
+        shift = ConstantOp.from_int_and_width(int(shifts.pop()) - 1, builtin.IntegerType(64))
+        mult = ConstantOp.from_int_and_width(int(mults.pop()), builtin.IntegerType(64))
         min = ConstantOp.from_int_and_width(op.min_int.value.data, builtin.IntegerType(32))
         max = ConstantOp.from_int_and_width(op.max_int.value.data, builtin.IntegerType(32))
-        rewriter.insert_op([zp_in, zp_out, shift, mult, min, max], InsertPoint.before(linalg_op))
+        one = ConstantOp.from_int_and_width(1, builtin.IntegerType(32))
+        rewriter.insert_op([zp_in, zp_out, shift, mult, min, max, one], InsertPoint.before(linalg_op))
 
-        # create body ops:
-        with_zp_in = SubiOp(op.input, zp_in)
-        extended = ExtSIOp(with_zp_in, builtin.i64)
-        multed = MuliOp(extended, mult)
+        # create body ops: 64 bit up to the first shift (by shift - 1), 32 bit from there on
+        extended = ExtSIOp(op.input, builtin.i64)
+        with_zp_in = SubiOp(extended, zp_in)
+        multed = MuliOp(with_zp_in, mult)
         shifted = ShRSIOp(multed, shift)
         trunced = TruncIOp(shifted, builtin.i32)
-        with_zp_out = AddiOp(trunced, zp_out)
+        body = [extended, with_zp_in, multed, shifted, trunced]
+        if op.double_round.value.data:
+            # round half away from zero: +1 for non-negative values, -1 for negative ones
+            zero = ConstantOp.from_int_and_width(0, builtin.IntegerType(32))
+            minus_one = ConstantOp.from_int_and_width(-1, builtin.IntegerType(32))
+            rewriter.insert_op([zero, minus_one], InsertPoint.before(linalg_op))
+            negative = CmpiOp(trunced, zero, "slt")
+            delta = SelectOp(negative, minus_one, one)
+            body += [negative, delta, trunced := AddiOp(trunced, delta)]
+        halved = ShRSIOp(trunced, one)
+        with_zp_out = AddiOp(halved, zp_out)
         clamped_max = MinSIOp(with_zp_out, max)
         clamped_min = MaxSIOp(clamped_max, min)
-        trunced_final = TruncIOp(clamped_min, builtin.i8)
-        rewriter.replace_op(
-            op, [with_zp_in, extended, multed, shifted, trunced, with_zp_out, clamped_max, clamped_min, trunced_final]
-        )
+        body += [halved, with_zp_out, clamped_max, clamped_min]
+        # the clamped value is 32 bit wide: convert to the result type of the rescale op
+        if out_type.bitwidth < 32:
+            body.append(TruncIOp(clamped_min, out_type))
+        elif out_type.bitwidth > 32:
+            body.append(ExtSIOp(clamped_min, out_type))
+        rewriter.replace_op(op, body)
 
 
 class LowerLinalgBody(RewritePattern):
